@@ -40,7 +40,7 @@ FLAVOURS = {
 
 SAN_ENV = {
     "ASAN_OPTIONS": "abort_on_error=0:exitcode=99:detect_leaks=0:allocator_may_return_null=1:"
-                    "alloc_dealloc_mismatch=0:detect_stack_use_after_return=0:handle_abort=1",
+                    "alloc_dealloc_mismatch=1:detect_stack_use_after_return=0:handle_abort=1",
     "UBSAN_OPTIONS": "print_stacktrace=1:halt_on_error=1:exitcode=98",
 }
 
